@@ -34,6 +34,7 @@ RULE += ' Added classes: NaN / +-inf samples in float flat and array recordings 
 RULE += ' Round 6: 96-384 channel recordings with small unsorted channel requests to the store; the directly extracted array held across all later calls.'
 RULE += ' Round 7: headers of 7 / 16 bytes on (multi-file) flat recordings.'
 RULE += ' Round 8: model datasets with a single template; a second export of the same selection under another unit factor.'
+RULE += ' Round 10: multi-file recordings whose parts have equal base names; unit factors 0, 0.0 and -3; an export in which one chunk yields 8.2 MiB of waveforms after a chunk with two or three spikes.'
 EXHAUSTIVE = {'quick': False, 'thorough': False}
 FLOORS = {'quick': {'evaluations': 6000, 'distinct_nontrivial': 4000, 'monitors': {'M1.checked': 100000}},
           'thorough': {'evaluations': 80000, 'distinct_nontrivial': 40000, 'monitors': {'M1.checked': 500000}}}
